@@ -122,7 +122,9 @@ func c09Exec(c *c09Case, faults map[int]c09F, st *CaseStats) (rewrites int, repa
 	if c.Timed {
 		backend.SetRetryIntervalsForVerif(20*time.Millisecond, 4*time.Millisecond)
 	} else {
-		backend.SetRetryIntervalsForVerif(0, time.Hour)
+		// repair rounds are triggered by the harness; the interval is small but not zero, so that an entry which is
+		// (re-)queued during a round waits for the next round, as it does with the production interval
+		backend.SetRetryIntervalsForVerif(time.Millisecond, time.Hour)
 	}
 	keys := make([]string, len(c.Keys))
 	for i, k := range c.Keys {
@@ -213,9 +215,29 @@ func c09Exec(c *c09Case, faults map[int]c09F, st *CaseStats) (rewrites int, repa
 		}
 		return Pass
 	}
+	// what every commit was told to do, and which keys hold a write that landed with an unknown outcome and has not been
+	// followed by a definitely successful commit on the same key (the harness's own, exact view of "unresolved")
+	decisions := map[int]Decision{}
+	landedOpen := map[string]uint64{}
+	innerOnCommit := shim.OnCommit
+	shim.OnCommit = func(ci *CommitInfo) Decision {
+		d := innerOnCommit(ci)
+		mu.Lock()
+		decisions[ci.Seq] = d
+		mu.Unlock()
+		return d
+	}
 	shim.AfterCommit = func(ci *CommitInfo, err error) {
 		mu.Lock()
 		defer mu.Unlock()
+		if ci.Rev != 0 && len(ci.RawKey) > 0 {
+			switch {
+			case err == nil:
+				delete(landedOpen, string(ci.RawKey))
+			case errors.Is(err, storage.ErrUncertainResult) && decisions[ci.Seq] == UncertainApplied:
+				landedOpen[string(ci.RawKey)] = ci.Rev
+			}
+		}
 		// UncertainApplied on a batch whose conditions do not hold is a plain condition failure, nothing landed
 		if ci.Rev == armedRev && ci.Client >= 0 {
 			if errors.Is(err, storage.ErrUncertainResult) {
@@ -326,6 +348,7 @@ func c09Exec(c *c09Case, faults map[int]c09F, st *CaseStats) (rewrites int, repa
 		if !c.Timed {
 			// a faulted repair write re-enqueues itself: repeat until the queue is empty
 			for i := 0; i < 8 && backend.RetryQueueLenForVerif(env.B) > 0; i++ {
+				time.Sleep(1500 * time.Microsecond) // everything queued so far is due
 				backend.RetryNowForVerif(env.B)
 				time.Sleep(200 * time.Microsecond)
 				if err := settleAll(); err != nil {
@@ -364,6 +387,7 @@ func c09Exec(c *c09Case, faults map[int]c09F, st *CaseStats) (rewrites int, repa
 				return rewrites, repairFaulted, fmt.Errorf("step %d: %v", si, err)
 			}
 			before := backend.RetryQueueLenForVerif(env.B)
+			time.Sleep(1500 * time.Microsecond) // everything queued so far is due
 			backend.RetryNowForVerif(env.B)
 			time.Sleep(200 * time.Microsecond)
 			if err := settleAll(); err != nil {
@@ -412,6 +436,17 @@ func c09Exec(c *c09Case, faults map[int]c09F, st *CaseStats) (rewrites int, repa
 				}
 				st.Label("compact-while-unresolved")
 			}
+			mu.Lock()
+			for k, u := range landedOpen {
+				if resp.Header.Revision >= u {
+					mu.Unlock()
+					return rewrites, repairFaulted, fmt.Errorf("step %d: compaction advanced to %d although the write on %q that landed with an unknown outcome at revision %d has neither been repaired nor superseded (its record may be compacted away before its event is emitted)", si, resp.Header.Revision, k, u)
+				}
+			}
+			if len(landedOpen) > 0 {
+				st.Label("compact-while-a-landed-write-is-unrepaired")
+			}
+			mu.Unlock()
 			minAfter := backend.RetryMinRevisionForVerif(env.B)
 			if minBefore != 0 && minBefore == minAfter {
 				st.Label("compact-while-queue-nonempty")
